@@ -15,10 +15,10 @@ AD == INSTANCE Adaptive WITH Den <- 8, MaxLen <- 0, MaxScore <- 0, Thresholds <-
 SN == INSTANCE Snippet WITH Gap <- 20, MaxChars <- 0, Windows <- {}, Maxes <- {}, OccStarts <- {}, OccLens <- {}, MaxOcc <- 0, c <- 0
 QL == INSTANCE QueryLang WITH MaxDepth <- 128, BaseAtoms <- {}, AstDepth <- 0, ast <- 0, expl <- FALSE
 
-Chk(nm, cond) == cond \/ (Debug /\ PrintT(<<"MISMATCH", l, nm>>))
+Chk(nm, cond) == IF cond THEN TRUE ELSE (Debug /\ PrintT(<<"MISMATCH", l, nm>>))
 \* a difference from the transcription that the property does not forbid (e.g. a different but still valid
 \* choice of slices, or a parser that rejects trailing tokens): reported as drift, not as a violation
-DChk(nm, cond) == cond \/ PrintT(<<"DRIFT", l, nm>>)
+DChk(nm, cond) == IF cond THEN TRUE ELSE PrintT(<<"DRIFT", l, nm>>)
 Ev == Rec[l]
 Has(r, f) == f \in DOMAIN r
 NoPanic(o) == Chk("panic", ~Has(o, "panic"))
